@@ -506,6 +506,12 @@ def exception_classes():
               etree.XMLSyntaxError, etree.DocumentInvalid, etree.XMLSchemaParseError, etree.LxmlError,
               http.client.HTTPException, http.client.IncompleteRead, http.client.NotConnected, decimal.InvalidOperation,
               socket.timeout, ConnectionResetError]
+    # the text of an exception ends up in faults, reason phrases and log calls
+    for label, text in (('multi-line message', 'first line\nsecond: line'), ('non-latin-1 message', '\u20acuro \u0100'),
+                        ('braces in message', '{x} {} }{'), ('control characters in message', 'a\x00b\x01c\x1f'),
+                        ('long message', 'x' * 70000)):
+        add(f'ValueError({label})', (lambda t=text: ValueError(t)), f'o:{next(cid)}')
+        add(f'KeyError({label})', (lambda t=text: KeyError(t)), f'o:{next(cid)}')
     for cls in cands:
         if cls in seen or issubclass(cls, Warning):
             continue
@@ -609,7 +615,7 @@ def unmodel_reason(line):
 def run_do_post(table):
     from sdc11073.dispatch.messageconverter import MessageConverterMiddleware
     inj = Injector(table)
-    mw = MessageConverterMiddleware(inj, inj, mock.MagicMock(), inj)
+    mw = MessageConverterMiddleware(inj, inj, c17.real_logger('sdc.device'), inj)
     r = WD.call(mw.do_post, {}, '/uuid/svc', ('127.0.0.1', 1), b'<x/>')
     if r[0] == 'hang':
         return 'HANG', inj
@@ -669,7 +675,7 @@ def injection_post(ctx, B, classes):
     for path, ptok in (('/uuid/svc', 'ok'), ('/uuid/svc?wsdl', 'ok'), ('//[', None)):
         for c in [None] + classes:
             inj = Injector({'handle': c} if c else {})
-            mw = MessageConverterMiddleware(inj, inj, mock.MagicMock(), inj)
+            mw = MessageConverterMiddleware(inj, inj, c17.real_logger('sdc.device'), inj)
             r = WD.call(mw.do_get, {}, path, ('127.0.0.1', 1))
             if r[0] == 'ok':
                 got = f'ret {r[1][0]} {r[1][1]} ' + ('text' if r[1][0] == 500 else r[1][2].decode())
@@ -708,7 +714,7 @@ def run_handler(L, method, table, has_dispatcher=True):
         inj.outcome('lookup', None)
         return Comp()
     server = types.SimpleNamespace(dispatcher=types.SimpleNamespace(get_instance=get_instance) if has_dispatcher else None,
-                                   supported_encodings=[], chunk_size=0, logger=mock.MagicMock())
+                                   supported_encodings=[], chunk_size=0, logger=c17.real_logger())
     raw = (b'POST /svc/x HTTP/1.1\r\nHost: h\r\nContent-Length: 4\r\n\r\n<x/>' if method == 'POST' else b'GET /svc/x HTTP/1.1\r\nHost: h\r\n\r\n')
     sock = c17.FakeSock(raw)
 
@@ -726,6 +732,9 @@ def run_handler(L, method, table, has_dispatcher=True):
         return 'HANG', inj
     if r[0] == 'exc':
         return f'escape {type(r[1]).__name__} calls={inj.calls}', inj
+    bad = status_line_problem(out)
+    if bad:
+        return f'no-status-line {bad}', inj
     status, h, body = c17.split_response(out)
     m = re.match(r'HTTP/1\.[01] (\d+) ?(.*)', status)
     if not m:
@@ -740,6 +749,87 @@ def run_handler(L, method, table, has_dispatcher=True):
 
 
 _lock_patch = threading.Lock()
+
+
+def run_conn(L, tables):
+    """several requests on one connection through the real handler; tables[i] = stage outcomes of request i"""
+    calls = [0]
+    idx = {'read': 0, 'lookup': 0, 'post': 0}
+
+    class Comp:
+        def __init__(self, i):
+            self.i = i
+
+        def do_post(self, headers, path, peer, body):
+            calls[0] += 1
+            o = tables[self.i].get('post') if self.i < len(tables) else None
+            if o is not None and o[1] is not None:
+                raise o[1]()
+            return (o[3] if o else 200), 'Ok', b'<resp:0/>'
+
+    def get_instance(elem):
+        i = idx['read'] - 1        # the request whose body was read last
+        o = tables[i].get('lookup') if i < len(tables) else None
+        if o is not None:
+            raise o[1]()
+        return Comp(i)
+    server = types.SimpleNamespace(dispatcher=types.SimpleNamespace(get_instance=get_instance), supported_encodings=[], chunk_size=0,
+                                   logger=c17.real_logger())
+    raw = b'POST /svc/x HTTP/1.1\r\nHost: h\r\nContent-Length: 4\r\n\r\n<x/>' * len(tables)
+    sock = c17.FakeSock(raw)
+    orig = L.HR.read_request_body.__func__
+
+    def reader(cls, msg, sup=None):
+        i = idx['read']
+        idx['read'] += 1
+        o = tables[i].get('readBody') if i < len(tables) else None
+        if o is not None:
+            raise o[1]()       # nothing was read: the body of this request is still in the stream
+        return orig(cls, msg, sup)
+    with _lock_patch, mock.patch.object(L.HR, 'read_request_body', classmethod(reader)):
+        r = WD.call(L.rh.DispatchingRequestHandler, sock, ('127.0.0.1', 5), server)
+    if r[0] != 'ok':
+        return ('HANG' if r[0] == 'hang' else f'escape {type(r[1]).__name__}') + f' calls={calls[0]}'
+    outs = []
+    for resp in parse_responses(b''.join(sock.out)):
+        if resp is None:
+            outs.append('unparsable')
+            continue
+        code, reason, h, body = resp
+        if h.get('content-type', '').startswith('text/plain'):
+            outs.append(f'plain {code} {canon_reason(reason) if re.fullmatch(r"R[0-9]+", reason) else "exception"}')
+        else:
+            outs.append(f'soap {code} Ok resp:0')
+    return ' ; '.join(outs) + f' calls={calls[0]}'
+
+
+def injection_conn(ctx, L, B, classes):
+    """keep-alive loop: a request whose body cannot be read ends the connection, whatever follows"""
+    by_name = {c[2]: c[0] for c in classes}
+    reps = [c for c in classes if c[0] in ('HTTPRequestHandlingError(418)', 'InvalidPathError', 'ValueError', 'DechunkError', 'DecompressError')]
+    opts = [('ok', {})] + [(f'readBody={c[0]}', {'readBody': c}) for c in reps] + [(f'lookup={c[0]}', {'lookup': c}) for c in reps[:3]] + \
+           [(f'post={c[0]}', {'post': c}) for c in reps[:3]]
+    import itertools as it
+    seqs = list(it.product(range(len(opts)), repeat=2)) + [t for t in it.product(range(len(opts)), repeat=3) if (sum(t) % (1 if ctx.tier == 'thorough' else 5)) == 0]
+    for seq in seqs:
+        tables = [opts[i][1] for i in seq]
+        got = run_conn(L, tables)
+        toks = []
+        for t in tables:
+            p_ = t.get('post')
+            toks.append(','.join([model_token(t['readBody'][2]) if 'readBody' in t else 'ok', '1',
+                                  model_token(t['lookup'][2]) if 'lookup' in t else 'ok', model_token(p_[2]) if p_ else 'ret:200']))
+        case = {'kind': 'inject-connection', 'requests': [opts[i][0] for i in seq]}
+        ctx.case({'k': 'ic', **case}, nontrivial=any(tables))
+        first_bad = next((i for i, t in enumerate(tables) if 'readBody' in t), None)
+        n_resp = got.count(';') + 1 if not got.startswith(('escape', 'HANG')) else 0
+        if got.startswith(('escape', 'HANG')):
+            ctx.fail('do_POST:exception-escapes', f'connection with {len(tables)} requests: {got}', case)
+        elif first_bad is not None and n_resp > first_bad + 1:
+            ctx.fail('framing:request-behind-invalid-framing-executed', f'request {first_bad + 1} could not be read, but {n_resp} requests were '
+                     f'answered on the connection: {got}', case)
+        ctx.count('connection:' + ('ended-by-framing-error' if first_bad is not None else 'all-answered'))
+        B.add('CONN ' + ' '.join(toks), got, 'serveConn == keep-alive loop of DispatchingRequestHandler (injected stage outcomes)', case, names=by_name)
 
 
 def injection_handler(ctx, L, B, classes):
@@ -812,12 +902,17 @@ DOCTYPES = [
     ('laughs', '<!DOCTYPE x [<!ENTITY l0 "EXPANDED_C13"><!ENTITY l1 "&l0;&l0;&l0;&l0;"><!ENTITY l2 "&l1;&l1;&l1;&l1;">'
                '<!ENTITY l3 "&l2;&l2;&l2;&l2;"><!ENTITY l4 "&l3;&l3;&l3;&l3;"><!ENTITY l5 "&l4;_MARKER">]>', '&l5;'),
 ]
+# strings a handler may reflect into a status line, a fault text or the format string of a log call
+ODD_TEXT = ['urn:x\nInjected-Header: yes', 'urn:x\r\nSet-Cookie: a=b', 'urn:\u20acuro', 'urn:\u2028x', 'urn:{x}', 'urn:{}', 'urn:}', 'urn:{', 'urn:{0!r:>99}',
+            'urn:{0.__class__.__mro__}', 'urn:%s%d%(x)s', 'urn:\u00e4', 'urn:\U0001f600', 'urn:\tx', 'urn:' + 'a' * 9000, '{', '}{', '\u0100']
+# path elements: control characters, format-active characters, non-ascii (a request line is decoded as latin-1 and split at white space)
+ODD_PATH_ELEMENTS = ['Ge\x01t', 'G\xe4t', '{x}', '{}', '}', '{', '{0!r}', '{0.__class__}', '%s', '%(x)s', '\x7f', 'Get\x00', '..', 'Get;x=1', '\xff\xfe', 'a' * 3000]
 ODD_URIS = ['http://127.0.0.1:99999/notify', 'http://127.0.0.1:65536/', 'http://127.0.0.1:65535/', 'http://127.0.0.1:0/x', 'http://127.0.0.1:-1/x',
             'http://127.0.0.1:/x', 'http://127.0.0.1:abc/x', 'http://[::1/x', 'http://[::1]:50002/x', 'http://[v1.x]/', 'urn:uuid:1234', 'mailto:a@b.c',
             'http:///only-path', 'HTTP://127.0.0.1:50002/UP', 'http://127.0.0.1:50002', 'http://user:pw@127.0.0.1:50002/p', '//no-scheme/x', 'x',
             '', 'http://127.0.0.1:50002/a?b=c#d', 'https://127.0.0.1:50002/tls', 'http://\u00e4.example/x', 'http://127.0.0.1:50002/' + 'a' * 3000,
             'http://999.999.999.999:80/', 'http://127.0.0.1:00080/x', 'ftp://127.0.0.1/x', 'http://127.0.0.1:50002/%zz', 'http://host name/x']
-HUGE = ['9' * 40, '-1', '-' + '9' * 30, '1e400', '0' * 5000, '4294967296', '18446744073709551616', 'NaN', '', ' ', 'x' * 70000,
+HUGE = ODD_TEXT + ['9' * 40, '-1', '-' + '9' * 30, '1e400', '0' * 5000, '4294967296', '18446744073709551616', 'NaN', '', ' ', 'x' * 70000,
         '€ä\U0001f600', '0x10', '1_000', '٣']
 
 
@@ -868,13 +963,15 @@ def mutate_request(rng, sess, rec, pool):
         if acts:
             other = rng.choice(pool)
             m = re.search(rb'Action[^>]*>([^<]*)<', other['body'])
-            acts[0].text = rng.choice([m.group(1).decode() if m else 'urn:x', 'urn:unknown-action', '', acts[0].text + 'X'])
+            acts[0].text = rng.choice([m.group(1).decode() if m else 'urn:x', 'urn:unknown-action', '', acts[0].text + 'X'] + ODD_TEXT[:14])
             kind = 'wrong-action'
     elif k == 6:
         other = rng.choice(pool)
         parts = path.split('/')
         path = rng.choice([other['path'], '/'.join(parts[:2] + ['Nope']), '/'.join(parts[:2]), path + '/extra', '/' + parts[1] + '//Get',
-                           path.replace(parts[1], 'deadbeef'), '', '/', path + '?x=1', '//[', path.upper()])
+                           path.replace(parts[1], 'deadbeef'), '', '/', path + '?x=1', '//[', path.upper()] +
+                          ['/'.join(parts[:2] + [rng.choice(ODD_PATH_ELEMENTS + ['\u20ac', 'a\nb'])]) for _ in range(6)] +
+                          ['/' + rng.choice(ODD_PATH_ELEMENTS), path + '/' + rng.choice(ODD_PATH_ELEMENTS)])
         kind = 'wrong-path'
     elif k in (7, 8) and leafs:
         name, doctype, ref = rng.choice(DOCTYPES)
@@ -1134,6 +1231,28 @@ class OpenConnSock(c17.FakeSock):
         self.inp = OpenConnStream(data)
 
 
+_TOKEN = r"[!#$%&'*+\-.^_`|~0-9A-Za-z]+"
+_EXPECTED_HEADERS = {'server', 'date', 'content-type', 'content-length', 'transfer-encoding', 'content-encoding', 'connection'}
+
+
+def status_line_problem(out):
+    """the raw head of the first answer: one status line ended by CRLF, well-formed header lines, no header the handler does not send
+    (a line break smuggled into the reason phrase shows up as a broken status line or an extra header)"""
+    head, sep, _ = out.partition(b'\r\n\r\n')
+    if not sep:
+        return f'no end of header section in {out[:60]!r}'
+    lines = head.decode('latin-1').split('\r\n')
+    if not re.fullmatch(r'HTTP/1\.[01] [0-9]{3}( [^\r\n]*)?', lines[0]):
+        return f'status line {lines[0][:120]!r}'
+    for ln in lines[1:]:
+        m = re.fullmatch('(' + _TOKEN + r'):[ \t]*([^\r\n]*)', ln)
+        if not m:
+            return f'header line {ln[:120]!r} (status line {lines[0][:80]!r})'
+        if m.group(1).lower() not in _EXPECTED_HEADERS:
+            return f'unexpected header {m.group(1)!r} (status line {lines[0][:80]!r})'
+    return None
+
+
 class _NoClose(io.BytesIO):
     def close(self):
         pass
@@ -1165,7 +1284,6 @@ def impl_deferred(cap, items):
     from sdc11073.dispatch import DispatchKey
     with mock.patch.object(rhd, 'queue', types.SimpleNamespace(Queue=lambda n=0: _queue.Queue(cap))):
         reg = rhd.DispatchKeyRegistryDeferred('verif')
-    reg._logger = mock.MagicMock()
     handled = []
 
     def mk(i, f):
@@ -1309,14 +1427,14 @@ def http_stream(ctx, sess, L):
     """framing / coding / path damage on the HTTP level: real DispatchingRequestHandler with the provider's registry"""
     rng = ctx.subrng('http')
     server = types.SimpleNamespace(dispatcher=sess.psrv.dispatcher, supported_encodings=list(L.CH.available_encodings), chunk_size=0,
-                                   logger=mock.MagicMock())
+                                   logger=c17.real_logger())
     pool = sess.requests
     for i in range(ctx.n(400, 3500)):
         if _enough(ctx):
             break
         rec = rng.choice(pool)
         body, path = rec['body'], rec['path']
-        k = rng.randrange(14)
+        k = rng.randrange(18)
         hdrs = [('Host', Session.P_NETLOC), ('Content-Type', 'application/soap+xml; charset=utf-8')]
         method, kind = 'POST', 'valid'
         wire = body
@@ -1342,11 +1460,15 @@ def http_stream(ctx, sess, L):
             hdrs.append(('Content-Length', rng.choice(['abc', '', '-5', '-1', '1e3', '99999999999999999999999', ' 12', '0x10', str(len(wire) + 50), '0'])))
             kind = 'bad-content-length'
         elif k == 6:
-            path = rng.choice(['/nope', '?x', '//[', '/', '*', 'http://[::1', '/%zz', path + '/../..', '/' + 'a' * 5000, path.split('/')[1]])
+            pre = '/'.join(path.split('/')[:2])
+            path = rng.choice(['/nope', '?x', '//[', '/', '*', 'http://[::1', '/%zz', path + '/../..', '/' + 'a' * 5000, path.split('/')[1]] +
+                              ['/' + e for e in ODD_PATH_ELEMENTS] + [pre + '/' + e for e in ODD_PATH_ELEMENTS])
             hdrs.append(('Content-Length', str(len(wire)))); kind = 'wrong-path'
         elif k == 7:
             method = 'GET'; wire = b''
-            path = rng.choice([path + '?wsdl', path, '/nope?wsdl', '?wsdl', '//[', path + '/x?wsdl', '/'.join(path.split('/')[:2]) + '/?wsdl'])
+            pre = '/'.join(path.split('/')[:2])
+            path = rng.choice([path + '?wsdl', path, '/nope?wsdl', '?wsdl', '//[', path + '/x?wsdl', pre + '/?wsdl'] +
+                              ['/' + e + '?wsdl' for e in ODD_PATH_ELEMENTS[:10]] + [pre + '/' + e for e in ODD_PATH_ELEMENTS[:10]])
             kind = 'get'
         elif k == 8:
             kind2, path, wire, _ = mutate_request(rng, sess, rec, pool)
@@ -1357,6 +1479,32 @@ def http_stream(ctx, sess, L):
             kind = 'accept-encoding'
         elif k == 10:
             kind = 'no-length'
+        elif k in (11, 12):
+            # text that handlers reflect (status line, fault, log format string): Action / MessageID / addresses
+            from lxml import etree
+            try:
+                root = etree.fromstring(body)
+                targets = [e for e in root.iter() if isinstance(e.tag, str) and etree.QName(e.tag).localname in ('Action', 'MessageID', 'To', 'Address')]
+                e = targets[0] if (rng.random() < 0.6 and targets) else rng.choice(targets)
+                e.text = rng.choice(ODD_TEXT)
+                wire = etree.tostring(root)
+                kind = 'reflected-text:' + etree.QName(e.tag).localname
+            except Exception:  # noqa: BLE001
+                pass
+            hdrs.append(('Content-Length', str(len(wire))))
+        elif k in (13, 14):
+            # a request with invalid framing (RFC 7230 3.3.3: unrecoverable, the connection must end) followed by the bytes of a
+            # complete valid Subscribe request: nothing behind the invalid framing may be executed
+            subs = [r_ for r_ in pool if b'NotifyTo' in r_['body']] or [rec]
+            inner = rng.choice(subs)
+            wire = (f"POST {inner['path']} HTTP/1.1\r\nHost: {Session.P_NETLOC}\r\nContent-Type: application/soap+xml; charset=utf-8\r\n"
+                    f"Content-Length: {len(inner['body'])}\r\n\r\n").encode() + inner['body']
+            if rng.random() < 0.75:
+                hdrs.append(('Content-Length', rng.choice(['abc', '-5', '-1', '', '1e3', '5, 6', '0x', '--1', '1.0', 'NaN'])))
+            else:
+                hdrs.append(('Transfer-Encoding', 'chunked'))
+                wire = rng.choice([b'zz\r\n', b'-1\r\n', b'\r\n', b'5;x\r\nab', b'0x\r\n']) + wire
+            kind = 'smuggle'
         else:
             hdrs.append(('Content-Length', str(len(wire))))
         if not path or any(ch in path for ch in ' \r\n\t'):
@@ -1382,7 +1530,17 @@ def http_stream(ctx, sess, L):
                      f'{len(out)} bytes answered', case)
             ctx.count(f'http:{kind.split(":")[0]}:escape')
             continue
+        bad = status_line_problem(out)
+        if bad and not out.startswith(b'<!DOCTYPE HTML'):
+            ctx.fail(f'do_{method}:malformed-status-line', f'{kind}: {bad}', case)
+            ctx.count(f'http:{kind.split(":")[0]}:malformed-status-line')
+            continue
         resps = parse_responses(out)
+        if kind == 'smuggle' and any(x is not None and 200 <= x[0] < 300 for x in resps):
+            ctx.fail('framing:request-behind-invalid-framing-executed', 'the first request has an invalid Content-Length / chunk framing; the bytes '
+                     f'behind it were parsed as a further request and executed (statuses {[x[0] if x else None for x in resps]})', case)
+            sess.settle()
+            continue
         if not resps or resps[0] is None:
             if out.startswith(b'<!DOCTYPE HTML') and kind in ('wrong-path', 'get'):
                 ctx.count(f'http:{kind}:http.server-error-page')   # request line rejected by http.server itself
@@ -1466,6 +1624,7 @@ def run(ctx):
     _corpus(ctx, L)
     injection_post(ctx, B, classes)
     injection_handler(ctx, L, B, classes)
+    injection_conn(ctx, L, B, classes)
     deferred_correspondence(ctx, B, classes)
     B.flush()
     sess = session()
@@ -1510,7 +1669,7 @@ def _run_case(ctx, L, case):
     if k == 'http':
         sess = session()
         server = types.SimpleNamespace(dispatcher=sess.psrv.dispatcher, supported_encodings=list(L.CH.available_encodings), chunk_size=0,
-                                       logger=mock.MagicMock())
+                                       logger=c17.real_logger())
         raw = c17.unhx(case['raw'])
         sock = OpenConnSock(raw)
         r = WD.call(L.rh.DispatchingRequestHandler, sock, ('127.0.0.1', 50000), server)
@@ -1524,6 +1683,11 @@ def _run_case(ctx, L, case):
             ctx.fail(f'do_{method}:exception-escapes', f'{type(r[1]).__name__}: {str(r[1])[:160]}', case)
         elif not re.match(rb'HTTP/1\.[01] \d{3}', out):
             ctx.fail(f'do_{method}:no-response', repr(out[:40]), case)
+        elif status_line_problem(out):
+            ctx.fail(f'do_{method}:malformed-status-line', status_line_problem(out), case)
+        elif case.get('max_responses') and len(parse_responses(out)) > case['max_responses']:
+            ctx.fail('framing:request-behind-invalid-framing-executed', f'{len(parse_responses(out))} answers on a connection that had to end '
+                     f'after {case["max_responses"]}', case)
         ctx.case({'k': 'corpus', 'r': case['raw'][:80]})
     elif k == 'request' and case.get('body') is not None:
         sess = session()
@@ -1564,6 +1728,8 @@ def search(ctx):
         B = Batch(ctx)
         classes = exception_classes()
         injection_handler(ctx, L, B, classes)
+        if not ctx.failures:
+            injection_conn(ctx, L, B, classes)
         if not ctx.failures:
             deferred_correspondence(ctx, B, classes)
         if not ctx.failures:
